@@ -37,8 +37,8 @@ theorem instName_ne_of_named {d0 : Design} (hnamed : Named d0) {q : Nat} (hq : q
   cases hn : c.name with
   | none => simp [goodName, hn] at this
   | some n =>
-    simp only [goodName, hn, Bool.and_eq_true, bne_iff_ne, ne_eq] at this
-    simpa using this.1
+    simp only [goodName, hn, bne_iff_ne, ne_eq] at this
+    simpa using this
 
 theorem find?_append_left {α : Type} {p : α → Bool} {l1 l2 : List α} {a : α} (h : l1.find? p = some a) :
     (l1 ++ l2).find? p = some a := by
